@@ -732,6 +732,9 @@ class Frame:
             elif cur[0] in ('param', 'carried') and T.isconst(k) and isinstance(k[1], str) and False:
                 new = cur
             else:
+                pw = self._pointwise_store(cur, k, v)
+                if pw is not None:
+                    k, v = pw
                 new = _arr_store(cur, k, v, g)
             self.place_set(base_node, new)
             self.ctx.event('store', 'subscript', (cur, k, v), guard=g, loops=self.loops, where=self.where(node), extra={'target': name})
@@ -749,6 +752,26 @@ class Frame:
         if self.is_place(root) and (not isinstance(root, ast.Name) or root.id in self.env):
             keys = tuple(self.ex(p) for p in reversed(path)) + (k,)
             self.place_set(root, _arr_store(self.place_get(root), ('path', keys), v, g))
+
+    def _pointwise_store(self, cur, k, v):
+        """X[a:b] = <element-wise vector expression>   ==   for i in range(a, len(X)+b): X[i] = <element i-a>"""
+        if k[0] != 'sl' or k[3] != NONE or not (k[1] == NONE or T._nonneg_const(k[1])) or not (k[2] == NONE or T.isconst(k[2])):
+            return None
+        vv = v[1] if v[0] == 'nd' else v
+        if not (vv[0] in ('div', 'mul', 'slice') or (vv[0] == 'call' and vv[1] in ('minimum', 'maximum')) or
+                (vv[0] == 'lin' and any(x[0] in ('slice', 'div', 'mul') for x, c in vv[2]))) or T.scalar_value(vv):
+            return None
+        n = T.length(cur)
+        lo = k[1] if k[1] != NONE else C(0)
+        hi = n if k[2] == NONE else T.add(n, k[2]) if T._neg_const(k[2]) else k[2]
+        if hi[0] == 'len':
+            return None
+        lv = ('lv', ('range', lo, hi, C(1)), len(self.loops))
+        elt = T.index(vv, T.sub(lv, lo))
+        for x in T.walk(elt):
+            if x[0] == 'idx' and (x[1][0] in ('div', 'mul', 'slice', 'lin') or (x[1][0] == 'call' and x[1][1] in ('minimum', 'maximum'))):
+                return None
+        return lv, elt
 
     # ------------------------------------------------------------------ expressions
     def ex(self, n):
